@@ -209,6 +209,12 @@ func runC05(r *Result, thorough bool) {
 			case 0: // truncated pull
 				cl.pull(a, b, 1+rng.Intn(5))
 				truncated++
+				// now and then the application's reply to the next block gets lost: the block was applied,
+				// the node sees an error
+				if rng.Intn(4) == 0 && len(a.app.delivered) > 0 {
+					a.app.failAfter = true
+					r.Inc("commit_replies_lost", 1)
+				}
 			case 1: // failing pull: the answer contains an undecodable event after a few good ones
 				known := a.core.KnownEvents()
 				diff, err := b.core.EventDiff(known)
